@@ -379,3 +379,47 @@ def features(E):
                 f.add("dep")
                 f.add("dep-" + n["t"])
     return f
+
+
+def ratio_ok_rows(E, prows, minimum=0.08):
+    """ratio_ok at the ACTUAL parameter rows of a case (the probe rows of ratio_ok move all
+    dependence variables together and miss mixed combinations such as p high / q low)."""
+    import torch
+    if not prows:
+        return True
+    k = len(next(iter(prows.values())))
+    for i in range(k):
+        penv = {n: np.asarray(torch.tensor(v[i:i + 1], dtype=torch.float32).double().numpy()).reshape(1, -1)
+                for n, v in prows.items()}
+        for node in rg.walk(E):
+            if node["t"] not in ("cut", "isect"):
+                continue
+            fv = rg.free_vars(node)
+            missing = [v for v in fv if v not in penv]
+            envs = [penv]
+            if missing:      # a variable bound by a product (t): probe its range ends and middle
+                rng_t = _bound_range(E, missing[0])
+                if rng_t is None:
+                    continue
+                envs = [dict(penv, **{missing[0]: np.array([[tv]])}) for tv in rng_t]
+            for pe in envs:
+                try:
+                    ma, _, _ = rg.qmc_measure(node["a"], pe, 512)
+                    mn, _, _ = rg.qmc_measure(node, pe, 512)
+                except KeyError:
+                    continue
+                if ma <= 0 or mn / ma < minimum:
+                    return False
+    return True
+
+
+def _bound_range(E, var):
+    for n in rg.walk(E):
+        if n["t"] == "product":
+            b = n["b"]
+            while b["t"] in ("boundary", "bleft", "bright"):
+                b = b["a"]
+            if b["t"] == "interval" and b["var"] == var and b["lo"]["k"] == "const" and b["hi"]["k"] == "const":
+                lo, hi = b["lo"]["v"][0], b["hi"]["v"][0]
+                return [lo, (lo + hi) / 2, hi]
+    return None
